@@ -552,6 +552,7 @@ struct WkdRun {
             else if (op.kind == "ATTACK") op_attack(op);
             else if (op.kind == "TAMPERCT") op_tamperct(op);
             else if (op.kind == "HOP") op_hop(op);
+            if (tl_list_modified) { std::string m = tl_list_modified; tl_list_modified = nullptr; env.fail("C20", "const-input-written", op.kind + ": " + m + " (the caller's list object is shared with other callers; the library keeps state in it or normalises it in place)"); }
         }
     }
 };
